@@ -338,10 +338,10 @@ def r10_3(prog, rep):
 
 def run(prog, rep, tier, snap):
     rep.rule("R10.1", "stash discipline: bounded stores in esccpy, cursor writes, subscripts, partial-line guard", 10)
-    r10_1(prog, rep)
-    r10_1v(prog, rep)
+    rep.call(r10_1, prog, rep)
+    rep.call(r10_1v, prog, rep)
     rep.rule("R10.2", "line consumption and pull progress", 3)
-    r10_2(prog, rep)
+    rep.call(r10_2, prog, rep)
     rep.rule("R10.3", "state machine exhaustiveness", 12)
-    r10_3(prog, rep)
+    rep.call(r10_3, prog, rep)
 READY = True
